@@ -12,7 +12,9 @@
 (*           before, its lexed records                                     *)
 (*       flash_writable, eep_writable,      whether that location can be   *)
 (*           written at all (a fact of the scenario)                       *)
-(*       others_changed, exit, printed]                                    *)
+(*       others_changed, exit, printed,                                    *)
+(*       report_ok]   the memory figures printed with -v equal those of    *)
+(*           the library's result (TRUE when nothing of the kind is shown) *)
 (***************************************************************************)
 EXTENDS IHex
 
@@ -29,6 +31,8 @@ Allowed(run) ==
            flashFail == needFlash /\ ~run.flash_writable
            eepFail   == needEep /\ ~run.eep_writable
        IN /\ ~run.others_changed
+          \* with -v the figures printed (usage and size of each memory) are the ones the library reports
+          /\ run.report_ok
           \* the flash image: written where it should be and decoding to exactly the library's image;
           \* an empty image may or may not produce a file, but one that is produced decodes to the empty image
           /\ (needFlash /\ run.flash_writable => Decodes(run.flash, run.lib.code))
